@@ -1,5 +1,6 @@
 import Tyme.Lemmas.Cache
 import Tyme.Model.ObjMemo
+import Tyme.Model.ProviderLock
 /-!
 C10 — answers do not depend on call history, thread interleaving or earlier refusals. Property theorems (`C10_*`).
 Model: `Cache.step` / `Cache.run` (one `LunarMonth::from_ym` per step: look up the memo, else construct and
@@ -159,5 +160,50 @@ example : let view : Nat → Int → Int := fun _ a => a
     let o : Obj Int Int := (mget view (fresh 5) 0).2
     let bad : Obj Int Int := { o with args := o.args + 1 }   -- stepped numbers, slots carried over
     (mget view bad 0).1 = 5 ∧ view 0 bad.args = 6 := by decide
+
+end Tyme
+
+/-! ### the process-wide strategy slots behind a mutex (Model/ProviderLock.lean) -/
+namespace Tyme
+open ProviderLock
+
+/-- the poison-free reference: only the strategy in force matters -/
+def pureAnswers {ρ α : Type} : (ρ → Option α) → List (Op ρ α) → List (Option α)
+  | _, [] => []
+  | f, .call r :: ops => f r :: pureAnswers f ops
+  | _, .set g :: ops => none :: pureAnswers g ops
+
+/-- HISTORY INDEPENDENCE of the strategy slots (code after D24): along any history of requests (refused ones included) and
+strategy changes, every answer is the answer of the strategy in force at that point — the poison flag never matters. -/
+theorem C10_provider_history {ρ α : Type} : ∀ (ops : List (Op ρ α)) (s : Slot ρ α),
+    (run stepRecover s ops).2 = pureAnswers s.strategy ops := by
+  intro ops
+  induction ops with
+  | nil => intro s; rfl
+  | cons op ops ih =>
+    intro s
+    cases op with
+    | call r =>
+      simp only [run, stepRecover, pureAnswers]
+      cases h : s.strategy r with
+      | some a => simp only []; rw [ih]
+      | none => simp only []; rw [ih]
+    | set g =>
+      simp only [run, stepRecover, pureAnswers]
+      rw [ih]
+
+/-- REFUSAL INDEPENDENCE of the strategy slots (code after D24): after ANY history of requests — refused ones included —
+and strategy changes, a request is answered by the strategy set last, exactly as in a process that never saw a refusal. -/
+theorem C10_provider_recover {ρ α : Type} (ops : List (Op ρ α)) (s : Slot ρ α) (r : ρ) :
+    (stepRecover (run stepRecover s ops).1 (.call r)).2 = (run stepRecover s ops).1.strategy r := by
+  simp only [stepRecover]
+  cases h : (run stepRecover s ops).1.strategy r <;> rfl
+
+/-- …whereas with `lock().unwrap()` one refused request makes every later request fail: the pre-repair behaviour (D24) -/
+theorem C10_provider_unwrap_poisons {ρ α : Type} (s : Slot ρ α) (bad good : ρ) (hb : s.strategy bad = none)
+    (a : α) (hg : s.strategy good = some a) (hp : s.poisoned = false) :
+    (run stepUnwrap s [.call bad, .call good]).2 = [none, none] ∧
+    (run stepRecover s [.call bad, .call good]).2 = [none, some a] := by
+  simp [run, stepUnwrap, stepRecover, hb, hg, hp]
 
 end Tyme
